@@ -22,9 +22,11 @@ run stream C05 2
 run script C04 2
 wait
 mkdir -p "$OUT"
-for t in enc rs bitmap stream script; do
+for tp in enc:C11 rs:C09 bitmap:C08 stream:C05 script:C04; do
+    t=${tp%%:*}; p=${tp##*:}
     mkdir -p "$OUT/$t"
-    ( cd "$W/$t" && DMFUZZ_PROP=none DMFUZZ_OUT="$W/$t/out" "$BIN/fz_$t" -merge=1 "$OUT/$t" corpus >/dev/null 2>&1 )
+    # minimise under the same oracle the campaign ran with (its coverage is what the corpus was grown for)
+    ( cd "$W/$t" && DMFUZZ_PROP=$p DMFUZZ_OUT="$W/$t/out" "$BIN/fz_$t" -merge=1 -max_len=4096 "$OUT/$t" corpus >/dev/null 2>&1 )
     echo "$t: $(ls "$W/$t/corpus" | wc -l) files grown, $(ls "$OUT/$t" | wc -l) after merge, failures: $(ls "$W/$t/out" | grep -c '^fail-')"
     cp "$W/$t/out"/fail-* "$OUT/" 2>/dev/null
 done
